@@ -23,9 +23,12 @@
        "counted + deferred" here: a dropped structure stays counted beneath its deferred root until
        allocation recycles it, which is why the in-use count, not the reachable count, is the
        measure that is exact.
-   NOT YET PROVED: the lifting from operation traces to programs (as C09); the executable check
-   (frontier <= peak + 2 at every run, peak sampled at statement boundaries only; equal frontier
-   after 8 and 32 iterations of the allocation-loop families) covers that link. *)
+   ROUND 2: the lifting from operation traces to programs is proved (Props/C09.v C09_program_heap_safe), so
+   the statements hold for every run of a linearity-checked program on the heap-instrumented linear machine
+   (C10_program_*, at the end of this file, with a concrete loop as example).  Not proved: that the real
+   code of a statement performs exactly the operations the instrumented machine lists (checked in lockstep
+   by heaplock-x86, see C09); the executable check (frontier <= peak + 2 at every run; equal frontier after 8
+   and 32 iterations of the allocation-loop families) remains. *)
 From Coq Require Import List ZArith Permutation.
 From SCC Require Import Model.Heap Proof.HeapMore Proof.HeapTrace.
 Import ListNotations.
@@ -87,3 +90,79 @@ Theorem C10_frontier_stable_after_peak :
     frontier (fst (grun ops (s, R))) = frontier s.
 Proof. exact frontier_stable_after_peak. Qed.
 Print Assumptions C10_frontier_stable_after_peak.
+
+(* ====================================================================================== *)
+(* C10 on PROGRAMS (round 2).  By Props/C09.v `C09_program_heap_safe` the operation trace of every
+   run of a linearity-checked program on the instrumented machine (Sem/AxHeap.v) satisfies
+   `pre_trace`, so the footprint theorems hold for programs. *)
+From SCC Require Import Lang.AxSyn Model.LinCheck Sem.AxHeap Proof.AxHeapTyping Proof.AxHeapSafe Proof.AxHeapProps
+  Proof.AxHeapExample Proof.AxHeapExampleFacts.
+
+Theorem C10_program_footprint_bound : forall base p args,
+  lin_check_prog p = true -> entry_ext p = true -> 0 < base ->
+  forall tr c pk, hreach base p args tr c -> peak_bound base tr pk ->
+  (frontier (hc_heap c) - base) / BLOCK <= Z.of_nat pk + 1.
+Proof. exact prog_footprint_bound. Qed.
+Print Assumptions C10_program_footprint_bound.
+
+Theorem C10_program_footprint_exact : forall base p args,
+  lin_check_prog p = true -> entry_ext p = true -> 0 < base ->
+  forall tr c pk, hreach base p args tr c -> peak_bound base tr pk -> peak_attained base tr pk ->
+  frontier (hc_heap c) = base + (Z.of_nat pk + 1) * BLOCK.
+Proof. exact prog_footprint_exact. Qed.
+Print Assumptions C10_program_footprint_exact.
+
+(* loops run in constant space: two runs of a program - any arguments, any numbers of iterations -
+   in which the same peak of blocks in use is attained end with the same frontier *)
+Theorem C10_program_loop_space_constant : forall base p args1 args2 tr1 c1 tr2 c2 pk,
+  lin_check_prog p = true -> entry_ext p = true -> 0 < base ->
+  hreach base p args1 tr1 c1 -> hreach base p args2 tr2 c2 ->
+  peak_bound base tr1 pk -> peak_attained base tr1 pk -> peak_bound base tr2 pk -> peak_attained base tr2 pk ->
+  frontier (hc_heap c1) = frontier (hc_heap c2).
+Proof. exact prog_loop_space_constant. Qed.
+Print Assumptions C10_program_loop_space_constant.
+
+(* the steady state of a loop, stated with the abstract machine: from a reachable configuration c
+   whose frontier stands at pk + 1 blocks, ANY continuation c -> c' (any number of further
+   iterations; in particular iterations that return the heap to a state with the same number of
+   blocks in use) during which at most pk blocks are in use leaves the frontier where it is *)
+Theorem C10_program_frontier_stable : forall base p args tr c tr' c' (pk : nat),
+  lin_check_prog p = true -> entry_ext p = true -> 0 < base ->
+  hreach base p args tr c -> hsteps p c tr' c' ->
+  (forall sr n, In sr (states tr' (hc_heap c, roots (hc_env c))) -> in_use base sr n -> (n <= pk)%nat) ->
+  frontier (hc_heap c) - base = (Z.of_nat pk + 1) * BLOCK ->
+  frontier (hc_heap c') = frontier (hc_heap c).
+Proof. exact prog_frontier_stable. Qed.
+Print Assumptions C10_program_frontier_stable.
+
+(* and from any reachable configuration the footprint stays below max(where it stood, peak + 1) *)
+Theorem C10_program_footprint_from : forall base p args tr c tr' c' (pk : nat),
+  lin_check_prog p = true -> entry_ext p = true -> 0 < base ->
+  hreach base p args tr c -> hsteps p c tr' c' ->
+  (forall sr n, In sr (states tr' (hc_heap c, roots (hc_env c))) -> in_use base sr n -> (n <= pk)%nat) ->
+  frontier (hc_heap c) - base <= (Z.of_nat pk + 1) * BLOCK ->
+  frontier (hc_heap c') - base <= (Z.of_nat pk + 1) * BLOCK.
+Proof. exact prog_footprint_from. Qed.
+Print Assumptions C10_program_footprint_from.
+
+(* the peak hypotheses can be computed: `peak_n` walks the reuse list in every state of the trace
+   (blocks in use = blocks below the frontier - length of the reuse list) *)
+Theorem C10_peak_computable : forall base fuel ops pk,
+  0 < base -> pre_trace (init base) [] ops -> peak_n base fuel ops (init base) = Some pk ->
+  peak_bound base ops pk /\ peak_attained base ops pk.
+Proof. exact peak_n_peak. Qed.
+Print Assumptions C10_peak_computable.
+
+(* non-vacuity: the loop program of Proof/AxHeapExample.v with 3 and with 30 iterations: peak 5 blocks
+   in use in both runs, and - by the theorems - the same frontier, 6 blocks above the base *)
+Example C10_example_peaks :
+  (peak_bound 4096 (hx_trace 3) 5 /\ peak_attained 4096 (hx_trace 3) 5) /\
+  (peak_bound 4096 (hx_trace 30) 5 /\ peak_attained 4096 (hx_trace 30) 5).
+Proof. exact (conj hx_peak_3 hx_peak_30). Qed.
+Print Assumptions C10_example_peaks.
+
+Example C10_example_loop_constant_space :
+  exists c1 c2, hreach 4096 hx_lin [3; 100] (hx_trace 3) c1 /\ hreach 4096 hx_lin [30; 100] (hx_trace 30) c2 /\
+    frontier (hc_heap c1) = frontier (hc_heap c2) /\ frontier (hc_heap c1) = 4096 + (5 + 1) * BLOCK.
+Proof. exact hx_loop_space. Qed.
+Print Assumptions C10_example_loop_constant_space.
